@@ -61,8 +61,8 @@ def uncovered_classes():
 def _subs(tier):
     out = []
     for kind in RECIPES:
-        for how in ['event', 'between']:
-            params = [['tc', 1, T], ['c1', 1, T], ['c2', 0, T]]
+        for how in ['event', 'between', 'init']:
+            params = [['tc', 1, T], ['c1', 1, T], ['c2', 0, T]] if how != 'init' else [['c1', 1, T], ['c2', 0, T]]
             out.append({'name': f'late-{kind}-{how}', 'shape': {'mode': 'late', 'kind': kind, 'how': how}, 'params': params})
     # N new System, A create asset, S simulate the latest system, O simulate the first (outdated once a second exists)
     seqs = ['NAS', 'NASAS', 'NANAS', 'NASNO', 'NAASS', 'NSASAS', 'NANAOS'] if tier == 'quick' else \
@@ -80,13 +80,13 @@ def jobs(tier):
 def bounds_text(tier):
     return ('(a) lifecycle sequences ' + ('of 3-6' if tier == 'quick' else 'of 3-8') + ' operations over {new System, create asset, simulate} with symbolic '
             'durations; (b) one late-creation cell per Asset class of simprocesd.model (15 kinds), created at a symbolic instant tc from '
-            'inside an event and between two simulate calls, compared with a twin created before the start; cycle times / durations / '
+            'inside an event, between two simulate calls, and during the initialisation pass of the first simulate (from a start-up action), compared with a twin created before the start; cycle times / durations / '
             'intervals symbolic')
 
 
 def required_goals(tier):
     return ['old_system_refused', 'asset_registered_with_latest_system', 'continued_without_reinit', 'late_cell_matched_twin',
-            'created_between_runs', 'created_inside_event']
+            'created_between_runs', 'created_inside_event', 'created_during_initialisation']
 
 
 def signature(f):
@@ -238,7 +238,7 @@ def _shift(obs, dt, z):
 def _late(shape, args, ctx):
     z = ctx.z
     kind, how = shape['kind'], shape['how']
-    tc = args['tc']
+    tc = args.get('tc', 0)
     # sensors sample forever: three intervals are observed; everything else runs to quiescence
     horizon = 3 * args['c1'] if kind in ('periodic', 'cms') else 4 * T
     # twin: created before the start of its own fresh system
@@ -267,6 +267,19 @@ def _late(shape, args, ctx):
 
 
 def _late_phase(kind, how, system, args, ctx, tc, horizon, holder):
+    if how == 'init':
+        # created while the System is initialising its assets on the first simulate(): from the start-up action of
+        # an ActionScheduler that was registered before the start
+        ctx.goal('created_during_initialisation')
+
+        def create(*a):
+            holder['obs'], kick = _cell(kind, system, args, ctx, 0)
+            if kick:
+                system.env.schedule_event(0, -7, kick, EventType.OTHER_LOW_PRIORITY, 'kick cell')
+        boot = ActionScheduler([(10 ** 9, 'boot')], name='boot', is_cyclical=False)
+        boot.register_object(object(), create)
+        system.simulate(horizon, print_summary=False)
+        return
     if how == 'event':
         ctx.goal('created_inside_event')
 
